@@ -535,10 +535,12 @@ NvmModule *nvm_deserialize(const uint8_t *data, uint32_t size) {
                 while (pos + 4 <= sec_size) {
                     uint32_t slen = le_read_u32(sec_data + pos);
                     pos += 4;
-                    if (slen > sec_size - pos) break;
+                    if (slen > sec_size - pos) { nvm_module_free(mod); return NULL; }
                     nvm_add_string(mod, (const char *)(sec_data + pos), slen);
                     pos += slen;
                 }
+                /* all-or-nothing: a section that is not consumed exactly is malformed */
+                if (pos != sec_size) { nvm_module_free(mod); return NULL; }
                 break;
             }
 
@@ -559,6 +561,7 @@ NvmModule *nvm_deserialize(const uint8_t *data, uint32_t size) {
                     fn.upvalue_count = le_read_u16(sec_data + pos);     pos += 2;
                     nvm_add_function(mod, &fn);
                 }
+                if (pos != sec_size) { nvm_module_free(mod); return NULL; }
                 break;
             }
 
@@ -569,6 +572,7 @@ NvmModule *nvm_deserialize(const uint8_t *data, uint32_t size) {
                     uint32_t line   = le_read_u32(sec_data + pos); pos += 4;
                     nvm_add_debug_entry(mod, bc_off, line);
                 }
+                if (pos != sec_size) { nvm_module_free(mod); return NULL; }
                 break;
             }
 
@@ -591,7 +595,7 @@ NvmModule *nvm_deserialize(const uint8_t *data, uint32_t size) {
                     mod->imports[idx].param_count        = le_read_u16(sec_data + pos); pos += 2;
                     mod->imports[idx].return_type        = sec_data[pos++];
 
-                    if (pos + mod->imports[idx].param_count > sec_size) break;
+                    if (pos + mod->imports[idx].param_count > sec_size) { nvm_module_free(mod); return NULL; }
 
                     if (mod->imports[idx].param_count > 0) {
                         mod->import_param_types[idx] = malloc(mod->imports[idx].param_count);
@@ -605,6 +609,7 @@ NvmModule *nvm_deserialize(const uint8_t *data, uint32_t size) {
                     pos += mod->imports[idx].param_count;
                     mod->import_count++;
                 }
+                if (pos != sec_size) { nvm_module_free(mod); return NULL; }
                 break;
             }
 
